@@ -54,12 +54,13 @@ PRIM_CLAUSES = ["prim_no_panic", "prim_no_hang", "prim_alloc_proportional", "pri
 
 def run_models(ctx):
     """role 1 + 2. Returns (program lines, stats list, asis result)."""
-    # VERIF_C10_MODEL=fixed: predict with the semantics of fix.C10.patch.proposed (to evaluate a tree that carries the
-    # patch: no DRIFT expected there); default: the primitives as they are in the pinned tree
-    gencfg = "Decoder.genfixed.cfg" if os.environ.get("VERIF_C10_MODEL") == "fixed" else "Decoder.gen.cfg"
+    # default: the primitives with the bounds checks of the 'fix:' commit in /repo (1cf4b00);
+    # VERIF_C10_MODEL=pinned predicts with the semantics of the pinned tree
+    gencfg = "Decoder.gen.cfg" if os.environ.get("VERIF_C10_MODEL") == "pinned" else "Decoder.genfixed.cfg"
     runs = [("gen", gencfg, "gen"), ("fixed", "Decoder.fixed.cfg", "mc"), ("asis", "Decoder.asis.cfg", "asis")]
     if ctx.tier == "thorough":
-        runs += [("gen3", "Decoder.gen3.cfg", "gen"), ("fixed3", "Decoder.fixed3.cfg", "mc")]
+        runs += [("gen3", "Decoder.gen3.cfg" if os.environ.get("VERIF_C10_MODEL") == "pinned" else "Decoder.gen3fixed.cfg", "gen"),
+                 ("fixed3", "Decoder.fixed3.cfg", "mc")]
 
     def one(run):
         name, cfg, kind = run
